@@ -205,6 +205,29 @@ fn radau_interpolant_interval() -> Option<String> {
     None
 }
 
+
+/// C18: nfev is the number of right-hand-side evaluations made by the stepper, njev the number of Jacobian
+/// evaluations (analytic Jacobian, so no finite-difference evaluations are involved)
+fn counters() -> Option<String> {
+    struct Cnt { ode: Cell<usize>, jac: Cell<usize> }
+    impl IVP for Cnt {
+        fn ode(&self, _t: f64, y: &[f64], d: &mut [f64]) { self.ode.set(self.ode.get() + 1); d[0] = -2.0 * y[0] + y[1]; d[1] = y[0] - 3.0 * y[1]; }
+        fn jac(&self, _t: f64, _y: &[f64], j: &mut ivp::matrix::Matrix) { self.jac.set(self.jac.get() + 1); j[(0, 0)] = -2.0; j[(0, 1)] = 1.0; j[(1, 0)] = 1.0; j[(1, 1)] = -3.0; }
+    }
+    for m in [Method::RK4, Method::RK23, Method::DOPRI5, Method::DOP853, Method::RADAU, Method::BDF] {
+        for first in [None, Some(0.01)] {
+            let f = Cnt { ode: Cell::new(0), jac: Cell::new(0) };
+            let mut o = Options::builder().method(m.clone()).build();
+            o.first_step = first;
+            let s = match solve_ivp(&f, 0.0, 1.0, &[1.0, 0.5], o) { Ok(s) => s, Err(_) => continue };
+            if s.nfev != f.ode.get() || s.njev != f.jac.get() {
+                return Some(format!("{:?} first_step={:?} on y'=Ay, [0,1]: nfev={} but the right-hand side was called {} times; njev={} but jac was called {} times", m, first, s.nfev, f.ode.get(), s.njev, f.jac.get()));
+            }
+        }
+    }
+    None
+}
+
 fn main() {
     let which = std::env::args().nth(1).unwrap_or_default();
     let r = match which.as_str() {
@@ -215,6 +238,7 @@ fn main() {
         "default_mass" => default_mass(),
         "matrix_dense_model" => matrix_dense_model(),
         "rk4_overshoot" => rk4_overshoot(),
+        "counters" => counters(),
         "radau_interpolant_interval" => radau_interpolant_interval(),
         "event_interpolant_right_end" => event_interpolant_right_end(),
         _ => { println!("unknown scenario {}", which); std::process::exit(2); }
